@@ -49,14 +49,14 @@ def enum_offset_stores(fnode):
 
 def check(run):
     p = run.prog
-    argvidx(run, p)
-    loader(run, p)
-    checkmode(run, p)
-    pytable(run, p)
-    flags(run, p)
+    run.attempt(argvidx, run, p)
+    run.attempt(loader, run, p)
+    run.attempt(checkmode, run, p)
+    run.attempt(pytable, run, p)
+    run.attempt(flags, run, p)
     from .. import ief, triage
-    ief.run_ief(run, 'C19', [p.fn('ReferenceTestCase.main'), p.fn('tdda.referencetest.referencepytest.tagged')], triage=triage.IEF)
-    run.floor('C19-IEF', run.units['ief_functions_checked'], 6)
+    run.attempt(ief.run_ief, run, 'C19', [p.fn('ReferenceTestCase.main'), p.fn('tdda.referencetest.referencepytest.tagged')], triage=triage.IEF)
+    run.floor('C19-IEF', run.units.get('ief_functions_checked', 0), 6)
 
 
 def argvidx(run, p):
